@@ -48,6 +48,12 @@ bool Rpc::initialize(Proto *proto, int timeout_sec)
 {
     using namespace std::placeholders;
 
+    //! timeout_sec < 1 时两个超时监测器都拒绝初始化（没有计时环），此后 request() 会解引用空指针
+    if (timeout_sec < 1) {
+        LogWarn("timeout_sec should >= 1");
+        return false;
+    }
+
     request_timeout_.initialize(std::chrono::seconds(1), timeout_sec);
     respond_timeout_.initialize(std::chrono::seconds(1), timeout_sec);
 
